@@ -23,6 +23,7 @@ def run(only=None):
         'GenEffects.v': lambda: py_effects2coq.generate('/repo')[0],
         'GenLedger.v': lambda: py_ledger2coq.generate('/repo'),
         'GenBand.v': lambda: py_ledger2coq.generate_band('/repo'),
+        'GenGetitem.v': lambda: py_ledger2coq.generate_getitem('/repo'),
         'GenDisp.v': lambda: py_disp2coq.generate('/repo'),
         'GenShift.v': lambda: py_shift2coq.generate('/repo'),
         'GenSnippet.v': lambda: py_shift2coq.generate_snippet('/repo'),
